@@ -148,27 +148,27 @@ func runC08(res *lib.Result, tier string, seed int64, args []string) error {
 		if len(files) == 0 {
 			disk["f0.lua"], files["f0.lua"] = 0, c08Variant(0, 0)
 		}
-		if hi%16 == 1 {
+		if hi%32 == 1 {
 			delete(disk, "sub/f2.lua")
 			delete(files, "sub/f2.lua")
 			disk["f0.lua"], files["f0.lua"] = 0, c08Variant(0, 0)
 			disk["f1.lua"], files["f1.lua"] = 5, c08Variant(1, 5) // require("sub.f2")
 		}
-		k1Hist := hi%16 == 10 // the canonical history of the former finding K1 (runs in every tier; repaired)
+		k1Hist := hi%32 == 10 // the canonical history of the former finding K1 (runs in every tier; repaired)
 		if k1Hist {
 			// f0 uses the global f1 would define (undefined-variable warnings in its saved list), f1 is clean
 			disk["f0.lua"], files["f0.lua"] = 4, c08Variant(0, 4)
 			disk["f1.lua"], files["f1.lua"] = 0, c08Variant(1, 0)
 			disk["sub/f2.lua"], files["sub/f2.lua"] = 0, c08Variant(2, 0)
 		}
-		if hi%16 == 2 {
+		if hi%32 == 2 {
 			// f0 defines gf0(a, b), sub/f2 calls it with three arguments; the script rewrites f0 to gf0(a): the
 			// caller's warning keeps its place and changes its message
 			disk["f0.lua"], files["f0.lua"] = 3, c08Variant(0, 3)
 			disk["f1.lua"], files["f1.lua"] = 0, c08Variant(1, 0)
 			disk["sub/f2.lua"], files["sub/f2.lua"] = 4, c08Variant(2, 4)
 		}
-		if hi%16 == 0 {
+		if hi%32 == 0 {
 			// two files named f2.lua (sub/f2.lua and alt/f2.lua), f1 requires "f2": the script deletes sub/f2.lua, the
 			// other candidate remains
 			disk["f0.lua"], files["f0.lua"] = 0, c08Variant(0, 0)
@@ -176,27 +176,27 @@ func runC08(res *lib.Result, tier string, seed int64, args []string) error {
 			disk["sub/f2.lua"], files["sub/f2.lua"] = 0, c08Variant(2, 0)
 			files["alt/f2.lua"] = "local alt = {}\nreturn alt\n"
 		}
-		if hi%16 == 4 {
+		if hi%32 == 4 {
 			// f0 defines the global sub/f2 uses; the script rewrites f0 on disk WHILE IT IS OPEN (a checkout, an external
 			// formatter), the client reloads the document and closes it
 			disk["f0.lua"], files["f0.lua"] = 3, c08Variant(0, 3)
 			disk["f1.lua"], files["f1.lua"] = 0, c08Variant(1, 0)
 			disk["sub/f2.lua"], files["sub/f2.lua"] = 4, c08Variant(2, 4)
 		}
-		if hi%16 == 12 {
+		if hi%32 == 12 {
 			// f0 is rewritten twice on disk; the second text differs from the first only by leading blank lines
 			disk["f0.lua"], files["f0.lua"] = 0, c08Variant(0, 0)
 			disk["f1.lua"], files["f1.lua"] = 0, c08Variant(1, 0)
 			disk["sub/f2.lua"], files["sub/f2.lua"] = 0, c08Variant(2, 0)
 		}
-		if hi%16 == 14 {
+		if hi%32 == 14 {
 			// f0 declares an annotated function, sub/f2 calls it; f0 gets an unsaved (valid) edit that is DISCARDED by
 			// closing the document; then sub/f2 is rewritten on disk to call the function with too few arguments
 			disk["f0.lua"], files["f0.lua"] = 17, c08Variant(0, 17)
 			disk["f1.lua"], files["f1.lua"] = 0, c08Variant(1, 0)
 			disk["sub/f2.lua"], files["sub/f2.lua"] = 18, c08Variant(2, 18)
 		}
-		if hi%16 == 8 {
+		if hi%32 == 8 {
 			// project mode (luahelper.json names f0.lua as the entry file): f0 requires f1, which does not exist yet; the
 			// script creates it — the project of f0 has to be analysed again, f1 belongs to it
 			for n := range disk {
@@ -207,7 +207,7 @@ func runC08(res *lib.Result, tier string, seed int64, args []string) error {
 			disk["f0.lua"], files["f0.lua"] = 21, c08Variant(0, 21)
 			disk["sub/f2.lua"], files["sub/f2.lua"] = 23, c08Variant(2, 23)
 		}
-		if hi%16 == 9 {
+		if hi%32 == 9 {
 			// f0 requires a module that never exists and f1, which the script creates: the diagnostic of the first require stays
 			for n := range disk {
 				delete(disk, n)
@@ -216,13 +216,19 @@ func runC08(res *lib.Result, tier string, seed int64, args []string) error {
 			disk["f0.lua"], files["f0.lua"] = 24, c08Variant(0, 24)
 			disk["sub/f2.lua"], files["sub/f2.lua"] = 0, c08Variant(2, 0)
 		}
-		if hi%16 == 6 {
+		if hi%32 == 16 {
+			// sub/f2.lua loads f0.lua by path (dofile: resolved through the file-exists cache); the script deletes f0.lua
+			disk["f0.lua"], files["f0.lua"] = 0, c08Variant(0, 0)
+			disk["f1.lua"], files["f1.lua"] = 0, c08Variant(1, 0)
+			disk["sub/f2.lua"], files["sub/f2.lua"] = 5, c08Variant(2, 5)
+		}
+		if hi%32 == 6 {
 			// two files declare the same class; the script moves one declaration down a line
 			disk["f0.lua"], files["f0.lua"] = 13, c08Variant(0, 13)
 			disk["f1.lua"], files["f1.lua"] = 13, c08Variant(1, 13)
 			disk["sub/f2.lua"], files["sub/f2.lua"] = 0, c08Variant(2, 0)
 		}
-		if hi%8 == 5 {
+		if (hi%32 == 5 || hi%32 == 13) {
 			// every file declares a class and uses the next one's... here: all files exist, file x declares, x-1 uses
 			for i, n := range names {
 				disk[n] = []int{10, 11}[(i+hi/8)%2]
@@ -324,11 +330,11 @@ func runC08(res *lib.Result, tier string, seed int64, args []string) error {
 		// file, then another file is edited cleanly and saved (the workspace is clean again at that event)
 		type scripted struct{ i, k, v int }
 		var script []scripted
-		if hi%16 == 1 {
+		if hi%32 == 1 {
 			// a module required by its dotted path (sub.f2) is created while the requiring file shows "not found"
 			script = []scripted{{2, 9, 0}}
 		}
-		if hi%16 == 2 {
+		if hi%32 == 2 {
 			script = []scripted{{0, 9, 9}}
 		}
 		if k1Hist {
@@ -336,28 +342,31 @@ func runC08(res *lib.Result, tier string, seed int64, args []string) error {
 			// the client is shown for f0 (its saved list changed) although f0's buffer still has the syntax error
 			script = []scripted{{0, 0, 0}, {0, 2, 1}, {1, 0, 0}, {1, 2, 3}, {1, 5, 0}}
 		}
-		if hi%16 == 6 {
+		if hi%32 == 6 {
 			script = []scripted{{0, 9, 14}}
 		}
-		if hi%16 == 0 {
+		if hi%32 == 0 {
 			script = []scripted{{2, 9, -2}}
 		}
-		if hi%16 == 12 {
+		if hi%32 == 12 {
 			script = []scripted{{0, 9, 2}, {0, 9, 16}}
 		}
-		if hi%16 == 8 {
+		if hi%32 == 16 {
+			script = []scripted{{0, 9, -2}}
+		}
+		if hi%32 == 8 {
 			script = []scripted{{1, 9, 22}}
 		}
-		if hi%16 == 9 {
+		if hi%32 == 9 {
 			script = []scripted{{1, 9, 25}}
 		}
-		if hi%16 == 14 {
+		if hi%32 == 14 {
 			script = []scripted{{0, 0, 0}, {0, 2, 19}, {0, 7, 0}, {2, 9, 20}}
 		}
-		if hi%16 == 4 {
+		if hi%32 == 4 {
 			script = []scripted{{0, 0, 0}, {0, 10, 0}, {0, 2, 0}, {0, 7, 0}}
 		}
-		if hi%8 == 5 {
+		if (hi%32 == 5 || hi%32 == 13) {
 			// a file that declares an annotation class is deleted while another file uses the class
 			x := 2 // variants [10, 11, 10]: f1 uses the class f2 declares
 			if (hi/8)%2 == 1 {
@@ -372,7 +381,7 @@ func runC08(res *lib.Result, tier string, seed int64, args []string) error {
 			}
 			script = []scripted{{a, 0, 0}, {a, 2, []int{1, 6, 7}[r.Intn(3)]}, {a, 7, 0}, {b, 0, 0}, {b, 2, []int{0, 8}[r.Intn(2)]}, {b, 5, 0}}
 		}
-		if hi%8 == 5 || hi%16 == 1 || hi%16 == 2 || k1Hist || hi%16 == 6 || hi%16 == 0 || hi%16 == 4 || hi%16 == 12 || hi%16 == 14 || hi%16 == 8 || hi%16 == 9 {
+		if (hi%32 == 5 || hi%32 == 13) || hi%32 == 1 || hi%32 == 2 || k1Hist || hi%32 == 6 || hi%32 == 0 || hi%32 == 4 || hi%32 == 12 || hi%32 == 14 || hi%32 == 8 || hi%32 == 9 || hi%32 == 16 {
 			nEv = r.Intn(2) // the comparison with a fresh server follows (almost) directly
 		} else if hi%3 == 1 {
 			nEv = 1 + r.Intn(4) // short histories: the state right after an event is compared with a fresh server
